@@ -45,6 +45,19 @@ fn types(small: bool) -> Vec<DnTypeSpec> {
 			DnTypeSpec::Custom(vec![0, 9, 2342, 19200300, 100, 1, 25]),
 			DnTypeSpec::Custom(vec![1, 2, 840, 113549, 1, 9, 1]),
 			DnTypeSpec::Custom(vec![2, 999, 18446744073709551000]),
+			// enough further types for names of more than 16 attributes
+			DnTypeSpec::Custom(vec![2, 5, 4, 4]),
+			DnTypeSpec::Custom(vec![2, 5, 4, 5]),
+			DnTypeSpec::Custom(vec![2, 5, 4, 9]),
+			DnTypeSpec::Custom(vec![2, 5, 4, 12]),
+			DnTypeSpec::Custom(vec![2, 5, 4, 17]),
+			DnTypeSpec::Custom(vec![2, 5, 4, 42]),
+			DnTypeSpec::Custom(vec![2, 5, 4, 43]),
+			DnTypeSpec::Custom(vec![2, 5, 4, 46]),
+			DnTypeSpec::Custom(vec![2, 5, 4, 65]),
+			DnTypeSpec::Custom(vec![1, 3, 6, 1, 4, 1, 311, 60, 2, 1, 3]),
+			DnTypeSpec::Custom(vec![1, 3, 6, 1, 4, 1, 55555, 1]),
+			DnTypeSpec::Custom(vec![1, 3, 6, 1, 4, 1, 55555, 2]),
 		]
 	}
 }
@@ -194,6 +207,25 @@ pub fn check_history(h: &History, info: &mut CaseInfo) -> Result<(), String> {
 		let (c, _) = decode_cert(cert.der())?;
 		model::name_matches(&c.subject, &model, "encoded subject")?;
 		model::name_matches(&c.issuer, &model, "encoded issuer")?;
+		// the same name as the subject of a certificate issued under another name by the same key,
+		// and as the issuer of a certificate for another name
+		let other: Model = vec![(DnTypeSpec::Org, DnValueSpec::new(StrKind::Utf8, "another name")), (DnTypeSpec::CommonName, DnValueSpec::new(StrKind::Printable, "x"))];
+		let mut ip = rcgen::CertificateParams::default();
+		ip.distinguished_name = rcgen::DistinguishedName::new();
+		for (t, v) in &other {
+			ip.distinguished_name.push(mk::dn_type(t), mk::dn_value(v).unwrap());
+		}
+		ip.is_ca = rcgen::IsCa::Ca(rcgen::BasicConstraints::Unconstrained);
+		ip.key_identifier_method = rcgen::KeyIdMethod::PreSpecified(vec![2]);
+		let issuer_cert = ip.self_signed(&key).map_err(|e| format!("self_signed failed: {e}"))?;
+		let issued = cert.params().clone().signed_by(&key, &issuer_cert, &key).map_err(|e| format!("signed_by failed: {e}"))?;
+		let (c2, _) = decode_cert(issued.der())?;
+		model::name_matches(&c2.subject, &model, "encoded subject (issued under another name by the same key)")?;
+		model::name_matches(&c2.issuer, &other, "encoded issuer (another name, same key)")?;
+		let back = issuer_cert.params().clone().signed_by(&key, &cert, &key).map_err(|e| format!("signed_by failed: {e}"))?;
+		let (c3, _) = decode_cert(back.der())?;
+		model::name_matches(&c3.issuer, &model, "encoded issuer (of a certificate for another name)")?;
+		model::name_matches(&c3.subject, &other, "encoded subject (another name)")?;
 	}
 	Ok(())
 }
@@ -268,7 +300,7 @@ fn vary_values(ops: &[DnOp], how: u8) -> Vec<DnOp> {
 }
 
 fn random_history() -> BoxedStrategy<History> {
-	(proptest::collection::vec(op(12), 0..60), proptest::collection::vec(op(12), 0..8), any::<u8>())
+	(prop_oneof![3 => proptest::collection::vec(op(12), 0..60), 1 => proptest::collection::vec(op(24), 20..90)], proptest::collection::vec(op(12), 0..8), any::<u8>())
 		.prop_map(|(ops, tail, mode)| {
 			// the second history: identical, a permuted prefix, or a variation with a different tail
 			let other = match mode % 6 {
@@ -308,7 +340,7 @@ fn dense_history() -> BoxedStrategy<History> {
 pub fn def() -> PropertyDef {
 	PropertyDef {
 		id: "C20",
-		rule: "Operation sequences push(type, value) / remove(type) / encode (the name, which lives inside the CertificateParams it is encoded from, is written into a CSR through a reference or into a certificate from a clone, the decoded subject must be the model at that step, and editing goes on afterwards) interpreted against DistinguishedName and against a Vec<(type, value)> model, observed after every step (iter, get for every type of the alphabet, remove's return value, no duplicates), plus the equality relation against a second history (identical, extended, reversed, unrelated, or the same history with every text changed only in letter case or white space), a rebuilt name and a clone, plus the encoded order in a certificate. Bounded-exhaustive: every sequence up to length 5 (quick; 111 111) / 6 (thorough; 1 111 111) over 10 operations (3 types incl. a custom OID equal to a standard one x 2 values + 3 removes + encode); random: length <= 60 over 12 types and all six value kinds. Non-trivial = the history contains a replace, a push of a previously removed type, or a second encode.",
+		rule: "Operation sequences push(type, value) / remove(type) / encode (the name, which lives inside the CertificateParams it is encoded from, is written into a CSR through a reference or into a certificate from a clone, the decoded subject must be the model at that step, and editing goes on afterwards) interpreted against DistinguishedName and against a Vec<(type, value)> model, observed after every step (iter, get for every type of the alphabet, remove's return value, no duplicates), plus the equality relation against a second history (identical, extended, reversed, unrelated, or the same history with every text changed only in letter case or white space), a rebuilt name and a clone, plus the encoded order in a certificate. Bounded-exhaustive: every sequence up to length 5 (quick; 111 111) / 6 (thorough; 1 111 111) over 10 operations (3 types incl. a custom OID equal to a standard one x 2 values + 3 removes + encode); random: length <= 60 over 12 types (a quarter: 20..90 operations over 24 types, so that names of more than 16 attributes occur and shrink again) and all six value kinds; the final name is also encoded as subject and as issuer of certificates issued under / for another name by the same key. Non-trivial = the history contains a replace, a push of a previously removed type, or a second encode.",
 		assumptions: vec!["the Vec model is the specification (insertion order since last absence, latest value)"],
 		subs: vec![
 			sweep_sub("exhaustive", exhaustive, check_history),
